@@ -8,6 +8,7 @@ import (
 	"bytes"
 	"context"
 	"fmt"
+	"math"
 	"math/big"
 	"sort"
 	"strings"
@@ -164,6 +165,9 @@ func runCase(env *vlib.Env, idx int, rep *vlib.Reporter) {
 		t.expiry = t.regBlock + uint64([]int{0, 1, 2, 3, 5, 8}[r.Intn(6)])
 		if r.Intn(10) == 0 && t.regBlock > 2 {
 			t.expiry = t.regBlock - 1 // already expired when registered
+		} else if r.Intn(12) == 0 {
+			t.expiry = math.MaxInt64 // "never expires": the largest admissible expiry block
+			rep.Obs("triggers_that_never_expire", 1)
 		}
 		plans[t.regBlock].regs = append(plans[t.regBlock].regs, k)
 		// place logs relative to registration and expiry
